@@ -4,7 +4,12 @@ Two kinds of cases.
 
 {"kind": "package",
  "control":  [[field name, value], ...]   value = first line ["\\n" + continuation line]...; every
-                                          continuation line starts with one blank and has text
+                                          continuation line starts with one blank and has text.  The
+                                          text may hold any character but LF, CR and NUL - also
+                                          controls, NBSP, zero-width space and the characters
+                                          str.splitlines() (but not the format) takes for line ends:
+                                          VT FF FS GS RS NEL U+2028 U+2029 - except white space at
+                                          the two ends of a line
  "scripts":  {"postinst": latin-1 str, ...}        any subset of the five maintainer scripts
  "files":    [[relative name, latin-1 data], ...]  data files; stored as ./name plus directories.
                                           A name (and each directory in it) may contain and END in
@@ -17,15 +22,23 @@ Two kinds of cases.
  "binary_pos": 0 | 1 | 2      debian-binary first / between the parts / last
  "extra":    bool             an unknown member (_gpgorigin) is appended
  "ar_style": "gnu" | "pad"    ar header names as ``name/`` (binutils) or blank-padded (dpkg); optional
+ "md5calls": [[route, encoding, errors], ...]   calls of md5sums() made one after the other on the
+                              same reader: route "deb" (DebFile.md5sums) or "control"
+                              (DebFile.control.md5sums), encoding None or one of MD5_ENCODINGS,
+                              errors None or one of MD5_ERRORS; optional (DEFAULT_MD5_CALLS)
  "open":     "fileobj" | "filename"
  "writer":   "harness" | "dpkg-deb:gzip" | "dpkg-deb:xz" | "dpkg-deb:none"   (optional)
 }
    The md5sums file always lists every data file with its real md5.
 
-   Every reader is put through three rounds.  (1) All answers are compared with what was packed.
+   Every reader is put through three rounds.  (1) All answers are compared with what was packed;
+   the md5calls are made in the given order, each answer compared with the packed map whose names
+   are decoded as that call asked (a name that cannot be decoded as asked: UnicodeError/DebError or
+   any answer; a name that decodes to nothing or to leading white space: not judged).
    (2) The mappings the reader handed out in round 1 (control fields from both routes, both
    scripts dicts, the three md5sum maps) are modified in place - every value overwritten, one
-   entry deleted, one added - and the reader is asked for them again.  (3) With the reader still
+   entry deleted, one added - and the reader is asked for them again (the md5calls in reverse
+   order).  (3) With the reader still
    open, a reader for a different fixed package is opened (same open mode), one archive per kind
    of defect (no data part, no control part, no debian-binary, two control candidates, two data
    candidates) is offered and must be rejected, and the other reader is closed; after each of
@@ -38,7 +51,10 @@ Two kinds of cases.
 {"kind": "members", "names": [ar member names, distinct], "open": ...}
    An archive with exactly these members (valid contents for every recognised name).  It is a
    well-formed package iff it has debian-binary, exactly one control candidate and exactly one data
-   candidate; otherwise DebFile() must raise DebError.  The bystander reader brackets the attempt
+   candidate; otherwise DebFile() must raise DebError.  Candidates are control.tar / data.tar plain
+   or with .gz .bz2 .xz .lzma; every other name - control.tar.zst, data.tar.Z, Control.tar.gz,
+   data.tgz, debian-binary~, ... - is an unknown member that neither stands in for a part nor
+   competes with one (such members carry a valid gzip'ed tarball of the part they resemble).  The bystander reader brackets the attempt
    (so every defective set is also "a defective archive attempted while another reader is open");
    an accepted set goes through the three rounds above.
 """
@@ -52,6 +68,7 @@ import tempfile
 from hypothesis import strategies as st
 
 from ..core import Violation, Enum, Hyp, Custom, short, s2b
+from .. import findings
 from ..gen import c06_archives as A
 
 from debian.debfile import DebFile, DebError
@@ -62,8 +79,13 @@ RULE = ("package cases are (control fields, subset of maintainer scripts, 0..5 d
         "content and names of 1..3 components with blanks/tabs/non-ASCII, a third of the components ending "
         "in white space (blank, tab, NBSP, U+3000) and some lower ones starting with a blank, tar format, "
         "list of (control, data) "
-        "compression pairs, position of debian-binary, extra member, open mode); every pair is built "
-        "and read back: control fields, scripts, md5sums (str and bytes keys), and for every file "
+        "compression pairs, position of debian-binary, extra member, open mode, 2..6 md5sums calls); a third of the "
+        "control values mix in non-printable characters (controls, NBSP, ZWSP, BOM and the 8 characters str.splitlines() "
+        "treats as line ends), followed by a blank or not; every pair is built "
+        "and read back: control fields, scripts, md5sums (str and bytes keys; then the case's sequence of "
+        "md5sums(encoding, errors) calls on DebFile and on .control over 6 ASCII-compatible encodings x 5 error "
+        "handlers, each answer compared with the names decoded as asked, the sequence repeated in reverse "
+        "after the returned maps were modified), and for every file "
         "and directory the 'name', './name', '/name' spellings of has_file/in/get_content/get_file/[]; "
         "absent names include each of the first two names with a blank or tab appended and stripped of "
         "outer white space. Every reader is then asked again after the mappings it returned were modified "
@@ -73,13 +95,25 @@ RULE = ("package cases are (control fields, subset of maintainer scripts, 0..5 d
         "member set). "
         "member-set cases enumerate every subset of the 5 control and 5 data candidate names with and "
         "without debian-binary (2048 sets x 2 orders x 2 open modes): DebError iff a part is missing "
-        "or ambiguous. Thorough adds packages built by dpkg-deb. Non-trivial = a package with a data "
+        "or ambiguous; look-alike names (28 unknown suffixes such as zst/Z/zip/GZ, other letter case, "
+        "tgz, prefixes, debian-binary~ ...) each replace each part of a complete set (2 orders x 2 open modes), both parts, "
+        "and join a complete set; random sets mix candidates with base name + arbitrary suffix. Thorough adds packages built by dpkg-deb. Non-trivial = a package with a data "
         "file whose name has a blank, a non-ASCII character or white space at the end of a component, or with two different compressions in "
         "one pair; or a defective member set; distinct = distinct canonical JSON of the case")
 ASSUMPTIONS = [
     "harness writers for ar/tar/compression (vcheck/gen/c06_archives.py; tarfile, gzip, bz2, lzma of the standard library)",
-    "control values are generated in the parser's normal form (no blanks at line ends, continuation "
-    "lines start with one blank, printable characters), so 'same control fields' is plain equality",
+    "control values are generated in the parser's normal form (no white space at line ends, continuation "
+    "lines start with one blank; any character but LF, CR, NUL inside), so 'same control fields' is plain equality",
+    "known deviation 'control-value-line-boundary-char' (replays/C07/control-value-form-feed.json): for a value "
+    "with VT/FF/FS/GS/RS/NEL/U+2028/U+2029 not followed by white space debcontrol() raises ValueError from "
+    "Deb822.validate_input; reported as a violation unless known_findings.json lists that id, in which case "
+    "exactly this ValueError for exactly such values is tolerated and the other answers are still checked",
+    "md5sums(encoding, errors): encodings utf-8, ascii, latin-1, cp1252, iso8859-15, cp437 (ASCII-compatible); "
+    "expected keys = packed name (UTF-8 bytes) decoded with (encoding, errors or 'strict'), later line wins "
+    "when two names decode alike; a call whose name cannot be decoded as asked may raise UnicodeError/DebError; "
+    "a call under which a name decodes to '' or to leading white space is not judged",
+    "a member whose name is not one of the 10 candidate names is unknown to the format whatever it resembles: "
+    "it neither satisfies nor duplicates a part (dpkg's stricter rule about unknown members between parts is not demanded)",
     "two members with the *same* name are not generated in member-set cases (the statement's 'more than one candidate' is read as distinct candidate names)",
     "file names: white space is generated inside and at the end of every path component and in front of "
     "lower components; a name whose very first character is white space, or that contains CR, LF or NUL, is "
@@ -97,12 +131,16 @@ ASSUMPTIONS = [
 EXHAUSTIVE = {
     "quick": "all 2048 subsets of {debian-binary} + 5 control candidates + 5 data candidates, x 2 member orders x 2 open modes; "
              "one fixed package (7 data files, among them 'etc/conf ' next to 'etc/conf', a name with tabs and '.config/.rc') "
-             "x 5x5 compressions x 3 tar formats x 3 debian-binary positions; "
+             "x 5x5 compressions x 3 tar formats x 3 debian-binary positions, 9 fixed md5sums(encoding, errors) calls each; "
+             "105 look-alike member names x the part they resemble replaced (2 orders x 2 open modes) or accompanied; "
+             "19 non-printable characters x 6 positions in a control value; "
              "every one of these cases with a bystander reader open, and every accepted archive with the "
              "modify-and-ask-again round and the second-reader / 5 rejected archives round",
     "thorough": "all 2048 subsets of {debian-binary} + 5 control candidates + 5 data candidates, x 2 member orders x 2 open modes; "
                 "one fixed package (7 data files, among them 'etc/conf ' next to 'etc/conf', a name with tabs and '.config/.rc') "
-                "x 5x5 compressions x 3 tar formats x 3 debian-binary positions x 2 open modes; "
+                "x 5x5 compressions x 3 tar formats x 3 debian-binary positions x 2 open modes, 9 fixed md5sums(encoding, errors) calls each; "
+                "105 look-alike member names x the part they resemble replaced (2 orders x 2 open modes) or accompanied; "
+                "19 non-printable characters x 6 positions in a control value; "
                 "every one of these cases with a bystander reader open, and every accepted archive with the "
                 "modify-and-ask-again round and the second-reader / 5 rejected archives round",
 }
@@ -118,17 +156,47 @@ DATA_CANDIDATES = ["data.tar" + ("." + c if c else "") for c in COMPS]
 # case validation
 
 
+# characters str.splitlines() treats as the end of a line although a control file does not (its
+# lines end at LF): a value may contain them like any other character
+LINE_BOUNDARY_CHARS = "\x0b\x0c\x1c\x1d\x1e\x85\u2028\u2029"
+# further characters that are not "printable": controls, DEL, soft hyphen, zero-width space, BOM, NBSP
+ODD_CHARS = LINE_BOUNDARY_CHARS + "\x01\x1b\x1f\x7f\x80\xa0\xad\u200b\ufeff\u3000\t"
+
+
+def _text_ok(line):
+    """Text of one line of a value: anything but the line terminators of the format (LF, CR), NUL
+    and code points UTF-8 cannot carry."""
+    return not any(c in "\n\r\x00" or "\ud800" <= c <= "\udfff" for c in line)
+
+
 def _valid_value(v):
     if not isinstance(v, str):
         return False
     lines = v.split("\n")
     first = lines[0]
-    if first != first.strip() or not first.isprintable():
+    if first != first.strip() or not _text_ok(first):
         return False
     for l in lines[1:]:
-        if len(l) < 2 or l[0] != " " or l != l.rstrip() or not l.strip() or not l.isprintable():
+        if len(l) < 2 or l[0] != " " or l != l.rstrip() or not l.strip() or not _text_ok(l):
             return False
     return True
+
+
+KNOWN_ID = "control-value-line-boundary-char"
+KNOWN_SIG = "control-value-with-line-boundary-character-refused"
+
+
+def _continuation_defect(lines):
+    return any(not l or not l[0].isspace() for l in lines[1:])
+
+
+def _refused_by_known_defect(ctrl):
+    """Does a value hold a VT/FF/FS/GS/RS/NEL/LS/PS that is not followed by white space (or is
+    followed by another one)?  Deb822's input validation cuts the already parsed value at these
+    characters and then misses the leading blank of a 'continuation line' (known finding
+    KNOWN_ID, tolerated only while known_findings.json lists it)."""
+    return any(_continuation_defect(v.splitlines()) and not _continuation_defect(v.split("\n"))
+               for _, v in ctrl)
 
 
 def _valid_fieldname(n):
@@ -183,6 +251,10 @@ def valid_package(case):
             return False
         if case.get("binary_pos", 0) not in (0, 1, 2) or case.get("ar_style", "gnu") not in ("gnu", "pad"):
             return False
+        for call in case.get("md5calls", []):
+            route, enc, err = call
+            if route not in ("deb", "control") or enc not in MD5_ENCODINGS + [None] or err not in MD5_ERRORS + [None]:
+                return False
         w = case.get("writer", "harness")
         return w == "harness" or w in ("dpkg-deb:gzip", "dpkg-deb:xz", "dpkg-deb:none")
     except (KeyError, TypeError, ValueError, AttributeError):
@@ -332,7 +404,15 @@ def _check_summary(deb, case, what):
         raise Violation("version", "%s: version = %r" % (what, deb.version))
     exp_ctrl = dict((k, v) for k, v in ctrl)
     for how, fn in (("DebFile.debcontrol", deb.debcontrol), ("control.debcontrol", deb.control.debcontrol)):
-        got = fn()
+        try:
+            got = fn()
+        except ValueError as e:
+            if isinstance(e, UnicodeError) or not _refused_by_known_defect(ctrl):
+                raise
+            if KNOWN_ID not in findings.allowed(ID):
+                raise Violation(KNOWN_SIG, "%s: %s() raised ValueError(%s) for a control file with the fields %s" % (
+                    what, how, e, short(exp_ctrl, 200)))
+            continue
         got_d = dict((k, got[k]) for k in got.keys())
         if got_d != exp_ctrl:
             raise Violation("control-fields", "%s: %s() = %s, packed %s" % (what, how, short(got_d, 200), short(exp_ctrl, 200)))
@@ -357,6 +437,70 @@ def _check_summary(deb, case, what):
     if got != exp_md5:
         raise Violation("md5sums", "%s: control.md5sums(encoding='utf-8') = %s" % (what, short(got, 200)))
     handed.append((got, "added/by the caller", "0" * 32))
+    return handed
+
+
+# md5sums(encoding=None, errors=None): "The returned keys are Unicode objects if an encoding is
+# specified, otherwise binary"; errors is the decoder's error handler.  ASCII-compatible encodings
+# only (an md5sums line is '<hex>  <name>' in ASCII framing).
+MD5_ENCODINGS = ["utf-8", "ascii", "latin-1", "cp1252", "iso8859-15", "cp437"]
+MD5_ERRORS = ["strict", "replace", "ignore", "surrogateescape", "backslashreplace"]
+DEFAULT_MD5_CALLS = [["deb", "ascii", "replace"], ["deb", "ascii", "surrogateescape"], ["control", "ascii", "ignore"],
+                     ["deb", "ascii", "strict"], ["deb", None, "replace"], ["deb", "latin-1", None],
+                     ["control", "cp1252", "backslashreplace"], ["deb", "cp1252", "replace"], ["deb", "utf-8", "strict"]]
+
+
+def _md5_model(files, encoding, errors):
+    """The md5sum map with the names as the caller asked for them: bytes, or decoded with
+    (encoding, errors).  'undecodable' when a name cannot be decoded that way; None when a decoded
+    name is one an md5sums line cannot express (empty or white space in front) - not judged."""
+    out = {}
+    for n, d in files:
+        key = n.encode("utf-8")
+        if encoding is not None:
+            try:
+                key = key.decode(encoding, errors or "strict")
+            except UnicodeDecodeError:
+                return "undecodable"
+            if not key or key[0].isspace():
+                return None
+        out[key] = hashlib.md5(d).hexdigest()       # names that decode to the same text: the later line wins
+    return out
+
+
+def _check_md5_calls(deb, case, calls, what, labels):
+    """Every call in turn on the same reader, each judged on its own; returns the maps handed out."""
+    files = [(n, s2b(d)) for n, d in case["files"]]
+    handed = []
+    seen = {}
+    for route, enc, err in calls:
+        fn = deb.md5sums if route == "deb" else deb.control.md5sums
+        how = "%s.md5sums(encoding=%r, errors=%r)" % ("DebFile" if route == "deb" else "control", enc, err)
+        exp = _md5_model(files, enc, err)
+        try:
+            got = fn(encoding=enc, errors=err)
+        except (UnicodeError, DebError):
+            if exp != "undecodable":
+                raise
+            labels.add("md5sums:name-undecodable-as-asked:refused")
+            continue
+        except ValueError:
+            if exp is not None:
+                raise
+            continue                                # a line whose name decodes to nothing cannot be split
+        if exp is None or exp == "undecodable":     # nothing is prescribed for this answer
+            continue
+        if got != exp or type(got) is not dict:
+            raise Violation("md5sums", "%s: %s = %s, packed (names decoded as asked) %s; calls so far on this reader: %s" % (
+                what, how, short(got, 200), short(exp, 200), short([list(k) for k in seen], 200)))
+        handed.append((got, b"added/by the caller" if enc is None else "added/by the caller", "0" * 32))
+        if enc is not None and exp != dict((n, hashlib.md5(d).hexdigest()) for n, d in files):
+            labels.add("md5sums:names-changed-by-the-requested-decoding")
+        if any(e == enc and r != err for e, r in seen):
+            labels.add("md5sums:same-encoding-asked-again-with-another-error-handler")
+        seen[(enc, err)] = True
+    if len(seen) > 1:
+        labels.add("md5sums:several-calls-with-different-arguments-on-one-reader")
     return handed
 
 
@@ -422,11 +566,16 @@ def _check_package(deb, case, what, labels):
     text = deb.control.get_content("control", encoding="utf-8")
     if text != control_text(ctrl).decode("utf-8"):
         raise Violation("file-content", "%s: get_content('control', encoding='utf-8') = %s" % (what, short(text, 120)))
+    # the documented parameters of md5sums, several calls with different arguments on this reader
+    calls = case.get("md5calls") or DEFAULT_MD5_CALLS
+    handed += _check_md5_calls(deb, case, calls, what, labels)
     # the answers belong to the caller: whatever it does to the mappings it was given, the reader
     # must go on reporting what was packed
     _scribble(handed)
     _later("asked-again-after-the-answers-were-modified", _check_summary, deb, case,
            what + " [second round; the mappings returned in the first round were modified in place]")
+    _later("asked-again-after-the-answers-were-modified", _check_md5_calls, deb, case, calls[::-1],
+           what + " [second round, calls in reverse order]", labels)
     labels.add("answers-modified-and-asked-again")
 
 
@@ -663,12 +812,26 @@ def check_members(case):
             data = b"2.0\n"
         elif n in CTRL_CANDIDATES or n in DATA_CANDIDATES:
             data = _fixed_blob(n)
+        elif "control" in n.lower():        # a look-alike gets what a lenient reader would hope for
+            data = _fixed_blob("control.tar.gz")
+        elif "data" in n.lower():
+            data = _fixed_blob("data.tar.gz")
+        elif "debian" in n.lower():
+            data = b"2.0\n"
         else:
             data = b"junk\n"
         members.append(dict(name=n.encode("ascii"), data=data))
     raw = A.ar_archive(_styled(members))[0]
     labels = set(["kind:members", "open:" + case["open"]])
     labels.update("defect:" + d for d in defects)
+    others = [n for n in names if n != "debian-binary" and n not in CTRL_CANDIDATES and n not in DATA_CANDIDATES]
+    for n in others:
+        low = n.lower()
+        for base, defect in (("control", "no-control-part"), ("data", "no-data-part"), ("debian", "no-debian-binary")):
+            if base in low:
+                labels.add("look-alike-member:" + base)
+                if defect in defects:
+                    labels.add("look-alike-stands-in-for-the-missing-part:" + base)
     if not defects:
         labels.add("member-set-well-formed")
     op = _Opened(case["open"])
@@ -754,6 +917,43 @@ def enum_member_sets():
                         yield {"kind": "members", "names": names + ["_gpgorigin"], "open": mode}
 
 
+# names that look like a part but are not one of the names the format defines
+LOOKALIKE_SUFFIXES = ["zst", "zstd", "Z", "z", "zip", "lz", "lz4", "lzo", "lzip", "br", "sz", "bz", "bzip", "tbz2",
+                      "gzip", "GZ", "Gz", "XZ", "BZ2", "LZMA", "xz2", "gz2", "gz~", "gz.", "g", "x", "", "tar"]
+LOOKALIKES = {
+    "control": ["control.tar." + x for x in LOOKALIKE_SUFFIXES if len(x) <= 4]
+               + ["control.tgz", "control.tar_gz", "control.targz", "control.tar-xz", "Control.tar.gz", "CONTROL.TAR.GZ",
+                  "control.tar.gz.0", "xcontrol.tar.gz", "_control.tar.xz", "control", "control.ta", "control.gz",
+                  "control.zip", "control-tar.gz", "ctrl.tar.gz", "control.tar~"],
+    "data": ["data.tar." + x for x in LOOKALIKE_SUFFIXES]
+            + ["data.tgz", "data.tar_gz", "data.targz", "data.tar-xz", "Data.tar.gz", "DATA.TAR.GZ", "data.tar.gz.bak",
+               "data.tar.gz.zst", "data.tar.xz.gz", "xdata.tar.gz", "_data.tar.xz", "data", "data.ta", "data.gz",
+               "data.zip", "data-tar.gz", "data.tar~", "data.tar.lzma2", "data.tar.bz22", "data1.tar.gz"],
+    "debian-binary": ["debian-binary.", "debian_binary", "Debian-binary", "DEBIAN-BINARY", "debian-binary~",
+                      "debian-binar", "debian-binary2", "debian-binary.gz", "debian.binary", "_debian-binary",
+                      "debian-binaryx", "debian", "binary"],
+}
+
+
+def enum_lookalikes():
+    """A well-formed set with one part taken out and a look-alike put in its place (defective), with
+    both parts replaced (defective), and with a look-alike added to the complete set (well-formed:
+    a member with an unknown name is not a candidate for anything)."""
+    good = {"debian-binary": "debian-binary", "control": "control.tar.gz", "data": "data.tar.xz"}
+    order = ["debian-binary", "control", "data"]
+    for i, part in enumerate(order):
+        for j, alike in enumerate(LOOKALIKES[part]):
+            names = [alike if k == part else good[k] for k in order]
+            for mode in ("fileobj", "filename"):
+                yield {"kind": "members", "names": names, "open": mode}
+                yield {"kind": "members", "names": names[::-1], "open": mode}
+            full = [good[k] for k in order]
+            full.insert(1 + (i + j) % 3, alike)
+            yield {"kind": "members", "names": full, "open": ("fileobj", "filename")[j % 2]}
+    for j, (c, d) in enumerate(zip(LOOKALIKES["control"], LOOKALIKES["data"])):
+        yield {"kind": "members", "names": ["debian-binary", c, d], "open": ("fileobj", "filename")[j % 2]}
+
+
 def enum_matrix(modes):
     def gen():
         for mode in modes:
@@ -787,7 +987,18 @@ def _clean(s, fallback):
 line_st = st.text(alphabet=TEXT, min_size=1, max_size=12).map(lambda s: _clean(s, "v"))
 first_st = st.one_of(line_st, line_st, st.just(""))
 cont_st = st.one_of(line_st.map(lambda s: " " + s), st.just(" ."), line_st.map(lambda s: "  " + s))
-value_st = st.builds(lambda f, cs: "\n".join([f] + cs), first_st, st.lists(cont_st, max_size=3))
+# lines with characters that are not printable - controls, the characters str.splitlines() takes
+# for line ends (VT FF FS GS RS NEL LS PS), NBSP, zero-width space, BOM - between ordinary text,
+# followed by a blank or not
+odd_line_st = st.lists(st.one_of(st.sampled_from(list(ODD_CHARS)), st.sampled_from(list(LINE_BOUNDARY_CHARS)),
+                                 st.sampled_from(["a", "b c", " ", "Z", "é", "1.0"])),
+                       min_size=1, max_size=6).map(lambda xs: _clean("".join(xs), "v"))
+odd_first_st = st.one_of(line_st, odd_line_st, st.just(""))
+odd_cont_st = st.one_of(cont_st, odd_line_st.map(lambda s: " " + s))
+value_st = st.one_of(
+    st.builds(lambda f, cs: "\n".join([f] + cs), first_st, st.lists(cont_st, max_size=3)),
+    st.builds(lambda f, cs: "\n".join([f] + cs), first_st, st.lists(cont_st, max_size=3)),
+    st.builds(lambda f, cs: "\n".join([f] + cs), odd_first_st, st.lists(odd_cont_st, max_size=3)))
 nonempty_value_st = st.builds(lambda f, cs: "\n".join([f] + cs), line_st, st.lists(cont_st, max_size=3))
 FIELD_POOL = ["Version", "Architecture", "Maintainer", "Description", "Depends", "Section", "Priority",
               "Installed-Size", "Homepage", "X-Custom", "description-md5", "!odd$name", "a"]
@@ -850,6 +1061,12 @@ pair_st = st.tuples(st.sampled_from(COMPS), st.sampled_from(COMPS))
 ALL_PAIRS = [[c, d] for c in COMPS for d in COMPS]
 
 
+md5call_st = st.tuples(st.sampled_from(["deb", "deb", "control"]),
+                       st.sampled_from([None, "ascii", "ascii", "utf-8"] + MD5_ENCODINGS),
+                       st.sampled_from([None] + MD5_ERRORS))
+md5calls_st = st.lists(md5call_st, min_size=2, max_size=6)
+
+
 def package_st(nvariants):
     if nvariants >= 25:
         variants = st.just(ALL_PAIRS)
@@ -860,6 +1077,7 @@ def package_st(nvariants):
         "tarfmt": st.sampled_from(["gnu", "pax", "ustar"]), "variants": variants,
         "binary_pos": st.sampled_from([0, 0, 1, 2]), "extra": st.booleans(),
         "ar_style": st.sampled_from(["gnu", "pad"]),
+        "md5calls": md5calls_st,
         "open": st.sampled_from(["fileobj", "fileobj", "filename"])})
 
 
@@ -894,15 +1112,39 @@ def dpkg_package_st():
 
 
 JUNK_NAMES = ["_gpgorigin", "debian-binary", "control.tar", "data.tar", "foo", "control.tar.gz.", "data.tar.GZ"]
+# a part's base name with an arbitrary short suffix (now and then a real one), in any letter case
+lookalike_st = st.builds(lambda base, sep, suffix, up: (base.upper() if up == 2 else base.capitalize() if up == 1 else base) + sep + suffix,
+                         st.sampled_from(["control.tar", "data.tar", "data.tar", "control", "data"]),
+                         st.sampled_from([".", ".", ".", "", "-", "_", ".gz.", ".xz."]),
+                         st.one_of(st.text(alphabet="zstgxbZlma2ip4o.~_-GX0", min_size=0, max_size=4),
+                                   st.sampled_from(LOOKALIKE_SUFFIXES + list(COMPS))),
+                         st.sampled_from([0, 0, 0, 0, 1, 2])).map(
+    lambda n: n[:16].strip("/ ") or "x")
+_MEMBER_POOL = ["debian-binary"] * 3 + CTRL_CANDIDATES + DATA_CANDIDATES + JUNK_NAMES
 members_st = st.fixed_dictionaries({
     "kind": st.just("members"),
-    "names": st.lists(st.sampled_from(["debian-binary"] * 3 + CTRL_CANDIDATES + DATA_CANDIDATES + JUNK_NAMES),
+    "names": st.lists(st.one_of(st.sampled_from(_MEMBER_POOL), st.sampled_from(_MEMBER_POOL), lookalike_st,
+                                st.sampled_from(LOOKALIKES["control"] + LOOKALIKES["data"] + LOOKALIKES["debian-binary"])),
                       max_size=7, unique=True),
     "open": st.sampled_from(["fileobj", "filename"])})
 
 
 def externals_phase(shard, nshards, seed, deadline, rec):
     rec.note("external:dpkg-deb:" + ("present" if A.DPKG_DEB_BIN else "missing"))
+
+
+def enum_odd_control_values():
+    """Every character of ODD_CHARS inside a control value: between two letters, before a blank,
+    after a blank, and the same in a continuation line."""
+    k = 0
+    for ch in ODD_CHARS:
+        for tmpl in ("a%sb", "a%s b", "a %sb", "x\n a%sb", "x\n a%s b\n .", "%sa\n b%s%s c" if not ch.isspace() else "a%s %s b"):
+            k += 1
+            yield {"kind": "package",
+                   "control": [["Package", "odd"], ["Description", tmpl.replace("%s", ch)], ["Section", "misc"]],
+                   "scripts": {}, "files": [["usr/share/doc/odd/a b", "x\n"]], "tarfmt": "gnu",
+                   "variants": [[COMPS[k % 5], COMPS[(k // 5) % 5]]], "binary_pos": 0, "extra": False,
+                   "ar_style": "gnu", "open": ("fileobj", "filename")[k % 2]}
 
 
 def enum_big_files(sizes):
@@ -926,6 +1168,8 @@ def sources(tier):
         return [Enum("member-sets", enum_member_sets, "every subset of debian-binary + 5 control + 5 data candidates"),
                 Enum("compression-matrix", enum_matrix(["fileobj"]), "fixed package x 5x5 x 3 tar formats x 3 positions"),
                 Enum("big-files", enum_big_files([12000, 140000]), "2 sizes x 5 data compressions x 2 open modes x 2 control compressions"),
+                Enum("look-alike-members", enum_lookalikes, "each part replaced by each look-alike name x 2 orders x 2 open modes; look-alike added to a complete set"),
+                Enum("odd-control-values", enum_odd_control_values, "each non-printable / line-boundary character x 6 positions in a control value"),
                 Hyp("packages", package_st(5), 60, shards=8),
                 Hyp("member-sets-random", members_st, 300, shards=1),
                 Hyp("dpkg-deb", dpkg_package_st(), 12, shards=1),
@@ -933,6 +1177,8 @@ def sources(tier):
     return [Enum("member-sets", enum_member_sets, "every subset of debian-binary + 5 control + 5 data candidates"),
             Enum("compression-matrix", enum_matrix(["fileobj", "filename"]), "fixed package x 5x5 x 3 tar formats x 3 positions x 2 open modes"),
             Enum("big-files", enum_big_files([9000, 12000, 70000, 140000, 300000]), "5 sizes x 5 data compressions x 2 open modes x 2 control compressions"),
+            Enum("look-alike-members", enum_lookalikes, "each part replaced by each look-alike name x 2 orders x 2 open modes; look-alike added to a complete set"),
+            Enum("odd-control-values", enum_odd_control_values, "each non-printable / line-boundary character x 6 positions in a control value"),
             Hyp("packages", package_st(25), 200, shards=16),
             Hyp("member-sets-random", members_st, 2000, shards=2),
             Hyp("dpkg-deb", dpkg_package_st(), 30, shards=8),
